@@ -12,7 +12,7 @@ macro_rules! wrap_twins {
             const ONE: i32 = 1 << $f;
             #[cfg(kani)]
             #[kani::proof]
-            fn arith_ops() {
+            pub fn arith_ops() {
                 let (a, b): ($T, $T) = (kani::any(), kani::any());
                 let (x, y) = (Wrapping(Fx::from_bits(a)), Wrapping(Fx::from_bits(b)));
                 let (ai, bi) = (a as i32, b as i32);
@@ -39,12 +39,42 @@ macro_rules! wrap_twins {
                     assert!(x.rem_euclid_int(b) == Wrapping(Fx::from_bits(a).wrapping_rem_euclid_int(b)));
                 }
             }
+            // by-reference and assigning forms forward to the by-value operator (the impls are generic over F)
             #[cfg(kani)]
             #[kani::proof]
-            fn bit_and_shift_ops() {
+            pub fn ref_and_assign_forms() {
+                let (a, b): ($T, $T) = (kani::any(), kani::any());
+                let (x, y) = (Wrapping(Fx::from_bits(a)), Wrapping(Fx::from_bits(b)));
+                let (s, d, m) = (x + y, x - y, x * y);
+                assert!(x + &y == s && &x + y == s && &x + &y == s);
+                assert!(x - &y == d && &x - y == d && &x - &y == d);
+                assert!(x * &y == m && &x * y == m && &x * &y == m);
+                assert!(-&x == -x);
+                let mi = x * b;
+                assert!(&x * b == mi && &x * &b == mi && x * &b == mi);
+                let mut z = x; z += &y; assert!(z == s);
+                let mut z = x; z -= y; assert!(z == d);
+                let mut z = x; z *= &y; assert!(z == m);
+                let mut z = x; z *= &b; assert!(z == mi);
+                if b != 0 {
+                    let (q, r, qi, ri) = (x / y, x % y, x / b, x % b);
+                    assert!(&x / &y == q && &x / y == q && x / &y == q);
+                    assert!(&x % &y == r && &x % y == r && x % &y == r);
+                    assert!(&x / b == qi && x / &b == qi && &x / &b == qi);
+                    assert!(&x % b == ri && x % &b == ri && &x % &b == ri);
+                    let mut z = x; z /= &y; assert!(z == q);
+                    let mut z = x; z %= &y; assert!(z == r);
+                    let mut z = x; z /= b; assert!(z == qi);
+                    let mut z = x; z %= &b; assert!(z == ri);
+                }
+            }
+            #[cfg(kani)]
+            #[kani::proof]
+            pub fn bit_and_shift_ops() {
                 let (a, b): ($T, $T) = (kani::any(), kani::any());
                 let (x, y) = (Wrapping(Fx::from_bits(a)), Wrapping(Fx::from_bits(b)));
                 assert!((x & y).to_bits() == a & b && (x | y).to_bits() == a | b && (x ^ y).to_bits() == a ^ b && (!x).to_bits() == !a);
+                assert!((&x & &y) == (x & y) && (&x | y) == (x | y) && (x ^ &y) == (x ^ y) && (!&x) == !x);
                 let mut z = x; z &= y; assert!(z == x & y);
                 let mut z = x; z |= &y; assert!(z == x | y);
                 let mut z = x; z ^= y; assert!(z == x ^ y);
@@ -59,6 +89,11 @@ macro_rules! wrap_twins {
                 assert!((x << n128).to_bits() == a.wrapping_shl(n128 as u32) && (x >> n128).to_bits() == a.wrapping_shr(n128 as u32));
                 let nsz: usize = kani::any();
                 assert!((x << nsz).to_bits() == a.wrapping_shl(nsz as u32));
+                // by-reference forms of the shifts reduce the amount modulo the width of F as well
+                assert!((&x << n8).to_bits() == a.wrapping_shl(n8 as u32) && (&x >> n8).to_bits() == a.wrapping_shr(n8 as u32));
+                assert!((&x << &n32).to_bits() == a.wrapping_shl(n32) && (&x >> &n32).to_bits() == a.wrapping_shr(n32));
+                assert!((x << &n64).to_bits() == a.wrapping_shl(n64 as u32) && (&x >> &n128).to_bits() == a.wrapping_shr(n128 as u32));
+                let mut z = x; z <<= &n64; assert!(z == x << n64);
                 let mut z = x; z <<= n8; assert!(z == x << n8);
                 let mut z = x; z >>= n32; assert!(z == x >> n32);
                 assert!(x.rotate_left(n32).to_bits() == a.rotate_left(n32) && x.rotate_right(n32).to_bits() == a.rotate_right(n32));
@@ -66,7 +101,7 @@ macro_rules! wrap_twins {
             }
             #[cfg(kani)]
             #[kani::proof]
-            fn rounding_and_conversion() {
+            pub fn rounding_and_conversion() {
                 let a: $T = kani::any();
                 let x = Wrapping(Fx::from_bits(a));
                 let fx = Fx::from_bits(a);
@@ -93,7 +128,7 @@ wrap_twins!(u8f0, FixedU8, u8, false, U0, 0);
 
 #[cfg(kani)]
 #[kani::proof]
-fn signed_only_ops() {
+pub fn signed_only_ops() {
     let a: i8 = kani::any();
     let x = Wrapping(FixedI8::<U5>::from_bits(a));
     assert!(x.abs().to_bits() == a.wrapping_abs());
@@ -103,24 +138,39 @@ fn signed_only_ops() {
     let y = Wrapping(FixedI8::<U7>::from_bits(a));      // I1F7: 1 wraps to -1
     assert!(y.signum().to_bits() == if a == 0 { 0 } else { -128 });
 }
-#[cfg(kani)]
-#[kani::proof]
-#[kani::unwind(5)]
-fn sum_product_fold() {
-    let v: [i8; 3] = kani::any();
-    let n: usize = kani::any();
-    kani::assume(n <= 3);
-    let xs = [Wrapping(FixedI8::<U4>::from_bits(v[0])), Wrapping(FixedI8::<U4>::from_bits(v[1])), Wrapping(FixedI8::<U4>::from_bits(v[2]))];
-    let s: Wrapping<FixedI8<U4>> = xs[..n].iter().sum();
-    let mut e = Wrapping(FixedI8::<U4>::from_bits(0));
-    for x in &xs[..n] { e += *x; }
-    assert!(s == e);
-    let p: Wrapping<FixedI8<U4>> = xs[..n].iter().product();
-    if n > 0 {
-        let mut e = xs[0];
-        for x in &xs[1..n] { e *= *x; }
-        assert!(p == e);
-    } else {
-        assert!(p.to_bits() == 16);
-    }
+macro_rules! fold_twin {
+    ($name:ident, $Fx:ty, $T:ty, $f:expr, $signed:expr) => {
+        #[cfg(kani)]
+        #[kani::proof]
+        #[kani::unwind(5)]
+        pub fn $name() {
+            let v: [$T; 3] = kani::any();
+            let n: usize = kani::any();
+            kani::assume(n <= 3);
+            let xs = [Wrapping(<$Fx>::from_bits(v[0])), Wrapping(<$Fx>::from_bits(v[1])), Wrapping(<$Fx>::from_bits(v[2]))];
+            // sum: exact sum modulo 2^8
+            let mut es: i32 = 0;
+            for i in 0..n { es += v[i] as i32; }
+            let s: Wrapping<$Fx> = xs[..n].iter().sum();
+            assert!(s.to_bits() == es as $T);
+            let s2: Wrapping<$Fx> = xs[..n].iter().cloned().sum();
+            assert!(s2 == s);
+            // product: left fold of the wrapping product; the empty product is one (wrapped into the type)
+            let p: Wrapping<$Fx> = xs[..n].iter().product();
+            let p2: Wrapping<$Fx> = xs[..n].iter().cloned().product();
+            assert!(p == p2);
+            if n == 0 {
+                assert!(p.to_bits() == (1i32 << $f) as $T);
+            } else {
+                let mut e = v[0] as i32;
+                for i in 1..n { e = pol($signed, floor_div(e * v[i] as i32, 1i32 << $f)).wrapped; }
+                assert!(p.to_bits() == e as $T);
+            }
+        }
+    };
 }
+fold_twin!(fold_i4f4, FixedI8<U4>, i8, 4, true);
+fold_twin!(fold_i1f7, FixedI8<U7>, i8, 7, true);
+fold_twin!(fold_i0f8, FixedI8<U8>, i8, 8, true);
+fold_twin!(fold_u0f8, FixedU8<U8>, u8, 8, false);
+fold_twin!(fold_u4f4, FixedU8<U4>, u8, 4, false);
